@@ -72,9 +72,16 @@ PLAN_SIG = {'shipped': True, 'uniform': [], 'perop': ['NQ', 'SRQ8a'],
 PLANS['sig'] = PLAN_SIG
 
 
+PLAN_MULTI = {'shipped': True, 'uniform': ['SRQ8s', 'WO4c'], 'io': ['none']}
+PLANS['multi'] = PLAN_MULTI
+MULTI_TYPES = eg.TTOPO + ['CONV_2D', 'EMBEDDING_LOOKUP', 'SOFTMAX']
+
+
 def cases(tier, sigrev=False, blk=True):
   if blk:
     yield from blk_cases()
+  yield from universe.multi_cases(
+      MULTI_TYPES if tier == 'quick' else eg.T21 + eg.U, {'rp': 'multi'})
   for n, types, variants, exports, pname in spec(tier):
     yield from universe.graph_cases([(n, types, variants, exports)],
                                     {'rp': pname}, sigrev=sigrev and n <= 2,
@@ -118,12 +125,15 @@ def oracle(ctx):
     fails.append(ctx.fail('interp_allocate', f'{type(e).__name__}: {e}'[:400],
                           facts=_facts(ctx, 'interp_allocate', str(e))))
     return fails
-  try:
-    lite.run_signature(ctx.outcome.model, ctx.data, ctx.built.keys[0], it=it)
-  except Exception as e:
-    fails.append(ctx.fail('interp_invoke_signature',
-                          f'{type(e).__name__}: {e}'[:400],
-                          facts=_facts(ctx, 'interp_invoke_signature', str(e))))
+  for si in range(len(ctx.built.ops)):
+    try:
+      data = ctx.data if si == 0 else ctx.built.input_data(si, ctx.dkind)
+      lite.run_signature(ctx.outcome.model, data, ctx.built.keys[si], it=it)
+    except Exception as e:
+      fails.append(ctx.fail('interp_invoke_signature',
+                            f'signature {ctx.built.keys[si]}: '
+                            f'{type(e).__name__}: {e}'[:400],
+                            facts=_facts(ctx, 'interp_invoke_signature', str(e))))
   try:
     it2 = lite.interp(ctx.outcome.model)
     lite.run_plain(ctx.outcome.model,
